@@ -54,14 +54,20 @@ def _stage_ab(ctx):
             # key generation for EVERY draw, private-key parsing for every 32-byte encoding of 0..n+1
             import bits
             import bits.keys
-            for d in range(c["n"]):
-                with scripted_rng([d, 1, 1, 1]) as used:
+            # every pair of first draws (then the second repeated), and runs of 0 / n-1: "whatever the source returns"
+            seqs = [[d1] + [d2] * 6 for d1 in range(c["n"]) for d2 in range(c["n"])]
+            seqs += [[0] * k + [v] * 3 for k in range(1, 7) for v in (1, c["n"] - 1)] + [[0] * 12, [c["n"] - 1] * 12]
+            for seq in seqs:
+                with scripted_rng(seq) as used:
                     got = vlib.run_call(bits.keys.key)
                 n += 1
-                ctx.nontrivial(("B", cn, "keygen", d)) if d in (0, 1, c["n"] - 1) else None
+                if seq[0] in (0, c["n"] - 1):
+                    ctx.nontrivial(("B", cn, "keygen", tuple(seq[:3])))
+                if got.get("err") == "DrawsExhausted":
+                    continue   # a rejection sampler may refuse to finish on a stuck source; it must not emit a bad key
                 k = int.from_bytes(got["ok"], "big") if "ok" in got and isinstance(got["ok"], bytes) and len(got["ok"]) == 32 else None
                 if k is None or not (1 <= k <= c["n"] - 1):
-                    ctx.violation("keygen-out-of-range", {"stage": "B", "curve": cn, "op": "keygen", "draw": d, "got": str(got)})
+                    ctx.violation("keygen-out-of-range", {"stage": "B", "curve": cn, "op": "keygen", "draws": seq[:8], "got": str(got)})
             G = h_G(c)
             for v in range(c["n"] + 2):
                 got = vlib.run_call(bits.compute_point, v.to_bytes(32, "big"))
@@ -125,11 +131,16 @@ def gen_events(ctx, enc, curve, rnd, quick):
     keys += [rnd.randrange(1, n).to_bytes(32, "big") for _ in range(0 if quick else 100)]
     for kb in keys:
         add(dict(op="pubof", key=list(kb), **rec_point_result(enc, bits.compute_point, kb)), "privkey")
-    for d in [0, 1, n - 1, n - 2, 2, rnd.randrange(n)] + [rnd.randrange(n) for _ in range(0 if quick else 50)]:
-        with scripted_rng([d, 1, 1, 1]):
+    kseqs = [[0, 1], [1, 1], [n - 1, 1], [n - 2, 1], [2, 1], [0, 0, 5], [0, 0, 0, 7], [0, n - 1], [n - 1, 0], [n - 1, n - 1], [0, 0, 0, 0, 0, 0, n - 1]]
+    kseqs += [[rnd.randrange(n), rnd.randrange(n)] for _ in range(1 if quick else 50)]
+    for seq in kseqs:
+        with scripted_rng(seq + [seq[-1]] * 4):
             r = vlib.run_call(bits.keys.key)
+        if r.get("err") == "DrawsExhausted":
+            continue
         okb = "ok" in r and isinstance(r["ok"], (bytes, bytearray))
-        add(dict(op="keygen", draw=enc.num(d), ok=okb, res=list(r["ok"]) if okb else []), "keygen-boundary" if d in (0, 1, n - 1) else "keygen")
+        add(dict(op="keygen", draw=[enc.num(x) for x in seq], ok=okb, res=list(r["ok"]) if okb else []),
+            "keygen-boundary" if seq[0] in (0, 1, n - 1) else "keygen")
     return ev
 
 
